@@ -129,64 +129,60 @@ Qed.
 Definition is_write (e : eff) : bool := match e with EWrite _ _ _ => true | _ => false end.
 Definition n_writes (l : list eff) : nat := length (filter is_write l).
 
-Theorem never_crash secure c a :
-  ~ In ECrash (effs_of (read_conn secure c a)) /\ ~ In EOutOfFuel (effs_of (read_conn secure c a)).
+Ltac inl H := cbn in H; repeat (destruct H as [H|H]; [try discriminate H|]); try (now destruct H).
+
+Lemma shape_never_crash l : shape l -> ~ In ECrash l /\ ~ In EOutOfFuel l.
 Proof.
-  pose proof (read_shape secure c a) as S. inversion S as [| |? ? ? ?|? ? cl ?].
-  - cbn. tauto.
-  - cbn. split; intros [F|[]]; discriminate.
-  - cbn. split; intros [F|[F|[F|[]]]]; discriminate.
-  - destruct cl; cbn; split; intros F; repeat (destruct F as [F|F]; [discriminate|]); exact F.
+  intros S. destruct S as [| |k v Hk Hv|st v cl Hv]; try destruct cl; split; intros F; inl F.
 Qed.
 
-Theorem one_response secure c a : (n_writes (effs_of (read_conn secure c a)) <= 1)%nat.
+Lemma shape_one l : shape l -> (n_writes l <= 1)%nat.
+Proof. intros S. destruct S as [| |k v Hk Hv|st v cl Hv]; try destruct cl; cbn; auto. Qed.
+
+Lemma shape_reject l code : shape l -> In (EReject code) l ->
+  ~ In EDispatch l /\ In code [301; 400; 500; 505]
+  /\ exists v, okver v /\ l = [EReject code; EWrite code v true; EClose].
 Proof.
-  pose proof (read_shape secure c a) as S. inversion S as [| |? ? ? ?|? ? cl ?]; cbn; auto.
-  destruct cl; cbn; auto.
+  intros S I. destruct S as [| |k v Hk Hv|st v cl Hv]; try destruct cl; inl I.
+  injection I as ->. split; [intros F; inl F|]. split; [exact Hk|]. exists v. auto.
 Qed.
+
+Lemma shape_close l st v : shape l -> In (EWrite st v true) l ->
+  exists pre, l = pre ++ [EWrite st v true; EClose].
+Proof.
+  intros S I. destruct S as [| |k v' Hk Hv|st' v' cl Hv]; try destruct cl; inl I.
+  all: try (injection I as -> ->; first [now exists [EReject st] | now exists [EDispatch]]).
+  all: try discriminate I.
+Qed.
+
+Lemma shape_version l st v cl : shape l -> In (EWrite st v cl) l -> okver v.
+Proof.
+  intros S I. destruct S as [| |k v' Hk Hv|st' v' cl' Hv]; try destruct cl'; inl I;
+    injection I as _ <- _; exact Hv.
+Qed.
+
+Theorem never_crash secure c a :
+  ~ In ECrash (effs_of (read_conn secure c a)) /\ ~ In EOutOfFuel (effs_of (read_conn secure c a)).
+Proof. apply shape_never_crash, read_shape. Qed.
+
+Theorem one_response secure c a : (n_writes (effs_of (read_conn secure c a)) <= 1)%nat.
+Proof. apply shape_one, read_shape. Qed.
 
 Theorem rejected_not_dispatched secure c a code :
   In (EReject code) (effs_of (read_conn secure c a)) ->
   ~ In EDispatch (effs_of (read_conn secure c a))
   /\ In code [301; 400; 500; 505]
   /\ exists v, okver v /\ effs_of (read_conn secure c a) = [EReject code; EWrite code v true; EClose].
-Proof.
-  pose proof (read_shape secure c a) as S. intros I.
-  inversion S as [E|E|k v Hk Hv E|st v cl Hv E]; rewrite <- E in I.
-  - destruct I.
-  - destruct I as [F|[]]; discriminate.
-  - destruct I as [F|[F|[F|[]]]]; try discriminate. injection F as ->.
-    split; [|split; [exact Hk|exists v; auto]].
-    intros [F|[F|[F|[]]]]; discriminate.
-  - destruct cl; cbn in I; repeat (destruct I as [F|I]; [discriminate|]); destruct I.
-Qed.
+Proof. apply shape_reject, read_shape. Qed.
 
 Theorem close_when_said secure c a st v :
   In (EWrite st v true) (effs_of (read_conn secure c a)) ->
   exists pre, effs_of (read_conn secure c a) = pre ++ [EWrite st v true; EClose].
-Proof.
-  pose proof (read_shape secure c a) as S. intros I.
-  inversion S as [E|E|k v' Hk Hv E|st' v' cl Hv E]; rewrite <- E in I |- *.
-  - destruct I.
-  - destruct I as [F|[]]; discriminate.
-  - destruct I as [F|[F|[F|[]]]]; try discriminate. injection F as -> ->.
-    now exists [EReject st].
-  - destruct cl; cbn in I.
-    + destruct I as [F|[F|[F|[]]]]; try discriminate. injection F as -> ->. now exists [EDispatch].
-    + destruct I as [F|[F|[]]]; try discriminate.
-Qed.
+Proof. apply shape_close, read_shape. Qed.
 
 Theorem version_spoken secure c a st v cl :
   In (EWrite st v cl) (effs_of (read_conn secure c a)) -> okver v.
-Proof.
-  pose proof (read_shape secure c a) as S. intros I.
-  inversion S as [E|E|k v' Hk Hv E|st' v' cl' Hv E]; rewrite <- E in I.
-  - destruct I.
-  - destruct I as [F|[]]; discriminate.
-  - destruct I as [F|[F|[F|[]]]]; try discriminate. now injection F as _ <- _.
-  - destruct cl'; cbn in I; repeat (destruct I as [F|I]; [try discriminate; try (now injection F as _ <- _)|]);
-      destruct I.
-Qed.
+Proof. apply shape_version, read_shape. Qed.
 
 (* a parser error before the end of the headers is answered 400 and nothing is kept *)
 Theorem parser_error_reported secure c a f e v :
@@ -218,7 +214,7 @@ Theorem raise_answered secure c a :
   effs_of (read_conn secure c a)
   = match a_excreq a with Raise => [] | Ret _ => [EReject 500; EWrite 500 (1, 1) true; EClose] end.
 Proof.
-  unfold read_conn, hres_of. destruct (on_read secure c a) as [[c1 h] tags]. cbn. intros ->.
+  unfold read_conn, hres_of. destruct (on_read secure c a) as [[c1 h] tags]. cbn [fst snd]. intros ->.
   rewrite drain_exc. destruct (a_excreq a); reflexivity.
 Qed.
 
@@ -338,37 +334,82 @@ Definition inv (c : conn) : Prop :=
 Lemma inv_empty : inv empty_conn.
 Proof. intros ri H. discriminate. Qed.
 
-Lemma body_gate_inv c a f ri tags :
-  buf c = true -> cli c = Some ri -> fst (rver ri) = 1 ->
-  let r := body_gate c a f ri tags in
-  match hres_of r with
-  | HRet [] | HRaise => hconn_of r = c
+Definition st_ok (c1 : conn) (h : hres) : Prop :=
+  match h with
+  | HRaise => inv c1
+  | HRet [] => inv c1
+  | HRet [IClose] => cli c1 = None
   | _ => True
   end.
+
+Lemma reject_st c code v tags : st_ok (hconn_of (reject c code v tags)) (hres_of (reject c code v tags)).
+Proof. unfold reject. destruct (del_buf c); exact I. Qed.
+
+Lemma body_gate_st c a f ri tags :
+  inv c -> st_ok (hconn_of (body_gate c a f ri tags)) (hres_of (body_gate c a f ri tags)).
 Proof.
-  intros B C M. unfold body_gate, hres_of, hconn_of, reject.
-  destruct (a_clen a) as [|n]; [reflexivity|].
-  destruct ((negb (n =? 0)%Z || te_chunked ri) && negb (mc f)); [reflexivity|].
-  destruct (n <? 0)%Z; [unfold del_buf; rewrite B; exact I|].
-  destruct (negb (is10 (rver ri)) && negb (has_host ri)); [unfold del_buf; rewrite B; exact I|].
-  destruct (a_path a) as [|[|]]; [reflexivity| |exact I].
-  unfold del_buf. rewrite B. exact I.
+  intros Hi. unfold body_gate.
+  destruct (a_clen a) as [|n]; [exact Hi|].
+  destruct ((negb (n =? 0)%Z || te_chunked ri) && negb (mc f)); [exact Hi|].
+  destruct (n <? 0)%Z; [apply reject_st|].
+  destruct (negb (is10 (rver ri)) && negb (has_host ri)); [apply reject_st|].
+  destruct (a_path a) as [|[|]]; [exact Hi| |exact I].
+  destruct (del_buf c); exact I.
 Qed.
 
-Lemma read_conn_inv secure c a : inv c -> inv (conn_of (read_conn secure c a)).
+Lemma after_exec_st c a tags :
+  inv c -> buf c = true -> st_ok (hconn_of (after_exec c a tags)) (hres_of (after_exec c a tags)).
 Proof.
-  intros Hi.
-  (* every settled pipeline that produced a response cleared cli; the others leave on_read's state *)
-  assert (K : forall c1 q, (exists e q', q = e :: q' /\ (e = IClose \/ (exists k v, e = IHttpError k v) \/ exists r, e = IRequest r)) ->
-     forall c2 effs tg, drain FUEL q c1 a = Some (c2, effs, tg) -> q = [IClose] \/ cli c2 = None).
-  { intros c1 q (e & q' & -> & He) c2 effs tg D. unfold FUEL in D.
-    destruct He as [->|[(k & v & ->)|(r & ->)]]; cbn in D.
-    - destruct q'; [now left|]. right. clear -D. cbn in D.
-      (* not needed: on_read only yields singletons *) revert D.
-      destruct (handle c1 a i) as [[[? ?] ?] ?]. intros D.
-      destruct (drain 6 (q' ++ l0) c a); [|discriminate]. destruct p as [[? ?] ?].
-      injection D as <- _ _.
-      admit.
-    - admit.
-    - admit. }
-Abort.
+  intros Hi B. unfold after_exec.
+  destruct (a_exec a) as [|f]; [exact Hi|].
+  destruct (negb (hc f)).
+  - destruct (perrno f) as [e|]; [|exact Hi].
+    destruct (a_errreq a) as [|v]; [exact Hi|apply reject_st].
+  - unfold headers_done. destruct (cli c) as [r0|] eqn:C; [now apply body_gate_st|].
+    destruct (a_req a) as [|r1]; [exact Hi|].
+    destruct (fst (rver r1) =? 1) eqn:Mj; cbn [negb]; [|exact I].
+    apply body_gate_st. intros ri H. cbn in H. injection H as <-. split; [exact B|now apply N.eqb_eq].
+Qed.
+
+Lemma on_read_st secure c a :
+  inv c -> st_ok (hconn_of (on_read secure c a)) (hres_of (on_read secure c a)).
+Proof.
+  intros Hi. unfold on_read. destruct (buf c) eqn:B; [now apply after_exec_st|].
+  assert (Hi' : inv (set_buf c true)).
+  { intros ri H. cbn in H. destruct (Hi ri H) as [F _]. congruence. }
+  destruct (a_ssl a) as [|b]; [exact Hi'|].
+  destruct (b && negb secure); [reflexivity|].
+  now apply after_exec_st.
+Qed.
+
+Lemma inv_cleared c : inv (set_cli c None).
+Proof. intros ri H. discriminate. Qed.
+
+Theorem read_conn_inv secure c a : inv c -> inv (conn_of (read_conn secure c a)).
+Proof.
+  intros Hi. pose proof (on_read_st secure c a Hi) as S. pose proof (on_read_ok secure c a) as H.
+  unfold read_conn, conn_of. unfold hconn_of, hres_of in *.
+  destruct (on_read secure c a) as [[c1 h] tags]. cbn [fst snd] in *.
+  inversion H; subst; cbn in S.
+  - rewrite drain_exc. destruct (a_excreq a); cbn; [exact S|apply inv_cleared].
+  - rewrite drain_nil. exact S.
+  - rewrite drain_close. cbn. intros ri F. congruence.
+  - rewrite drain_httperror. cbn. apply inv_cleared.
+  - rewrite drain_request. cbn. apply inv_cleared.
+Qed.
+
+Theorem run_inv secure h t : (forall s, inv (t s)) -> forall s, inv (fst (run secure t h) s).
+Proof.
+  revert t. induction h as [|o r IH]; intros t Ht s; [apply Ht|].
+  cbn. destruct (step secure t o) as [t1 e] eqn:S.
+  assert (H1 : forall x, inv (t1 x)).
+  { intros x. destruct o as [s' a|s']; cbn in S.
+    - pose proof (read_conn_inv secure (t s') a (Ht s')) as R. unfold conn_of in R.
+      destruct (read_conn secure (t s') a) as [[c effs] tg]. injection S as <- _. cbn in R.
+      unfold upd. destruct (Nat.eqb x s'); [exact R|apply Ht].
+    - injection S as <- _. unfold upd. destruct (Nat.eqb x s'); [apply inv_empty|apply Ht]. }
+  specialize (IH t1 H1 s). destruct (run secure t1 r) as [t2 es]. exact IH.
+Qed.
+
+Corollary reachable_inv secure h s : inv (fst (run secure empty_tables h) s).
+Proof. apply run_inv. intros x. apply inv_empty. Qed.
